@@ -68,6 +68,8 @@ def build_go(ctx):
             shutil.copyfile(os.path.join(REPO, "go.sum"), os.path.join(hdir, "go.sum"))
         except OSError:
             pass
+        if REPO != "/repo":  # background runs on a snapshot of the repository (vp run --with-repo)
+            sh(["go", "mod", "edit", "-replace", "github.com/jmattheis/goverter=" + REPO], cwd=hdir)
         os.makedirs(os.path.join(WORK, "bin"), exist_ok=True)
         ctx.vh = os.path.join(WORK, "bin", "vh.%d" % os.getpid())
         rc, out = sh(["go", "build", "-tags", "verif", "-o", ctx.vh, "./cmd/vh"], cwd=hdir, timeout=600)
